@@ -11,13 +11,14 @@ From Boltons Require Import Lib.Prelude Lib.C12_Base Spec.C12_Spec Model.C12_Mod
 Definition is_wop (o : nsop) : bool := match o with ReadNs _ => false | _ => true end.
 
 Definition wobs (out : outcome) (x : ns) : step_obs :=
-  mkObs out (getsendbuffer (ns_bs x)) (length (wire (ns_bs x))).
+  mkObs out (getsendbuffer (ns_bs x)) (length (wire (ns_bs x))) (length (sintrs (script (ns_bs x)))).
 
 Record WRel (mx : nat) (acc : bytes) (ps : list bytes) (pend : list exn) (x : ns) : Prop := mkWRel {
   W_acc : wire (ns_bs x) ++ concat (sbuf (ns_bs x)) = acc;
   W_ps : acc = concat (map frame ps);
   W_pend : pend = sintrs (script (ns_bs x));
-  W_mx : ns_maxsize x = mx
+  W_mx : ns_maxsize x = mx;
+  W_dl : dl (ns_bs x) = true
 }.
 
 Lemma firstn_wire (w ext : bytes) : firstn (length w) (w ++ ext) = w.
@@ -43,7 +44,7 @@ Lemma wstep_send mx acc ps pend x data out0 s' out ps' W ext r :
              && Nat.leb (length (wire s')) (length W) && is_nil (concat (sbuf s'))
           then spec_writes mx W (acc ++ data) ps' pend r else None
      else if is_interrupt out
-          then match next_intr out pend with
+          then match explain_intr true out pend (length (sintrs (script s'))) with
                | Some t => if bytes_eqb (firstn (length (wire s')) W ++ concat (sbuf s')) (acc ++ data)
                               && Nat.leb (length (wire s')) (length W)
                            then spec_writes mx W (acc ++ data) ps' t r else None
@@ -52,17 +53,18 @@ Lemma wstep_send mx acc ps pend x data out0 s' out ps' W ext r :
           else None) = spec_writes mx W (acc ++ data) ps' pend' r /\
     WRel mx (acc ++ data) ps' pend' (with_bs x s').
 Proof.
-  intros [Hacc Hps Hpend Hmx] E -> -> Hps'.
-  pose proof (send_gen _ _ _ _ E) as (_ & sent & Hw & Hc & Hcase).
+  intros [Hacc Hps Hpend Hmx Hdl] E -> -> Hps'.
+  pose proof (send_gen _ _ _ _ E) as ((_ & _ & _ & _ & Hdl') & sent & Hw & Hc & Hcase).
   rewrite Hacc in Hc.
   destruct out0 as [|n| |e]; try contradiction.
   - destruct Hcase as (Hsb & _ & Hst). cbn [outcome_eqb].
     rewrite conserved_w by exact Hc. rewrite Hsb. cbn [is_nil andb].
-    exists pend. split; [reflexivity|]. constructor; cbn [ns_bs with_bs ns_maxsize]; auto. congruence.
-  - cbn [outcome_eqb is_interrupt]. rewrite (sintrs_head _ _ _ Hcase).
-    rewrite Hpend, Hcase. cbn [next_intr]. rewrite exn_eqb_refl.
+    exists pend. split; [reflexivity|]. constructor; cbn [ns_bs with_bs ns_maxsize]; auto; congruence.
+  - cbn [outcome_eqb is_interrupt]. rewrite Hdl in Hcase. rewrite (sintr_by_is_intr _ _ _ _ Hcase).
+    rewrite Hpend, (sintr_by_explain _ _ _ _ Hcase).
     rewrite conserved_w by exact Hc.
-    exists (sintrs (script s')). split; [reflexivity|]. constructor; cbn [ns_bs with_bs ns_maxsize]; auto.
+    exists (sintrs (script s')). split; [reflexivity|]. constructor; cbn [ns_bs with_bs ns_maxsize]; auto;
+      congruence.
 Qed.
 
 Lemma ns_wstep mx acc ps pend x o out x' W ext :
@@ -72,13 +74,13 @@ Lemma ns_wstep mx acc ps pend x o out x' W ext :
     (forall r, spec_writes mx W acc ps pend ((o, wobs out x') :: r) = spec_writes mx' W acc' ps' pend' r) /\
     WRel mx' acc' ps' pend' x'.
 Proof.
-  intros HR Ho H HW. pose proof HR as [Hacc Hps Hpend Hmx].
+  intros HR Ho H HW. pose proof HR as [Hacc Hps Hpend Hmx Hdl].
   destruct o as [m|p|n|]; try discriminate; cbn [ns_step] in H.
   - (* write_ns *)
     unfold write_ns in H. rewrite Hmx in H.
     destruct (Nat.ltb mx (length p)) eqn:El.
     + inversion H; subst out x'; clear H. exists mx, acc, ps, pend. split; [|assumption].
-      intro r. cbn [spec_writes wobs o_out o_buf o_cnt]. rewrite El. unfold getsendbuffer.
+      intro r. cbn [spec_writes wobs o_out o_buf o_cnt o_left]. rewrite El. unfold getsendbuffer.
       change (outcome_eqb (OExn NetstringMessageTooLong) (OExn NetstringMessageTooLong)) with true.
       rewrite HW, conserved_w by exact Hacc. reflexivity.
     + rewrite frame_model in H. destruct (send (ns_bs x) (frame p)) as [o0 s'] eqn:E.
@@ -91,10 +93,10 @@ Proof.
       destruct (wstep_send mx acc ps pend x (frame p) o0 s' _ (ps ++ [p]) W ext []
                   HR E eq_refl HW Hps') as (pend' & _ & HR').
       exists mx, (acc ++ frame p), (ps ++ [p]), pend'. split; [|exact HR'].
-      intro r. cbn [spec_writes wobs o_out o_buf o_cnt ns_bs with_bs]. rewrite El. unfold getsendbuffer.
+      intro r. cbn [spec_writes wobs o_out o_buf o_cnt o_left ns_bs with_bs]. rewrite El. unfold getsendbuffer.
       destruct (wstep_send mx acc ps pend x (frame p) o0 s' _ (ps ++ [p]) W ext r
                   HR E eq_refl HW Hps') as (pend'' & Heq & HR'').
-      assert (pend'' = pend') by (destruct HR' as [_ _ A _], HR'' as [_ _ B _]; congruence). subst pend''.
+      assert (pend'' = pend') by (destruct HR' as [_ _ A _ _], HR'' as [_ _ B _ _]; congruence). subst pend''.
       exact Heq.
   - (* setmaxsize *)
     inversion H; subst out x'; clear H. exists n, acc, ps, pend. split.
@@ -111,11 +113,11 @@ Proof.
                 HR E eq_refl HW Hps') as (pend' & _ & HR').
     rewrite app_nil_r in HR'.
     exists mx, acc, ps, pend'. split; [|exact HR'].
-    intro r. cbn [spec_writes wobs o_out o_buf o_cnt ns_bs with_bs]. unfold getsendbuffer.
+    intro r. cbn [spec_writes wobs o_out o_buf o_cnt o_left ns_bs with_bs]. unfold getsendbuffer.
     destruct (wstep_send mx acc ps pend x [] o0 s' _ ps W ext r
                 HR E eq_refl HW Hps') as (pend'' & Heq & HR'').
     rewrite app_nil_r in Heq, HR''.
-    assert (pend'' = pend') by (destruct HR' as [_ _ A _], HR'' as [_ _ B _]; congruence). subst pend''.
+    assert (pend'' = pend') by (destruct HR' as [_ _ A _ _], HR'' as [_ _ B _ _]; congruence). subst pend''.
     exact Heq.
 Qed.
 
@@ -160,7 +162,8 @@ Proof.
       as (mx1 & acc1 & ps1 & pend1 & Heq & HR1).
     destruct (IH mx1 acc1 ps1 pend1 x1 obs' w Hr HR1 E2) as (mx' & acc' & ps' & pend' & Hs & HR').
     exists mx', acc', ps', pend'. split; [|assumption].
-    change (mkObs out (getsendbuffer (ns_bs x1)) (length (wire (ns_bs x1)))) with (wobs out x1).
+    change (mkObs out (getsendbuffer (ns_bs x1)) (length (wire (ns_bs x1)))
+                  (length (sintrs (script (ns_bs x1))))) with (wobs out x1).
     rewrite Heq. exact Hs.
 Qed.
 
@@ -200,15 +203,15 @@ Qed.
 Lemma read_ns_frame x m p rest out x' :
   ns_inv x -> ns_rem x = frame p ++ rest -> read_ns x m = (out, x') ->
   ns_inv x' /\ ns_maxsize x' = ns_maxsize x /\ ns_suffix x x' /\
-  ((exists e, out = OExn e /\ ns_rem x' = ns_rem x /\ ns_tmo x = e :: ns_tmo x') \/
+  ((exists e, out = OExn e /\ ns_rem x' = ns_rem x /\ ns_intr_by e x x') \/
    (ns_tmo x' = ns_tmo x /\
     if Nat.ltb (ns_mx x m) (length p)
     then out = OExn NetstringMessageTooLong \/ out = OExn MessageTooLong
     else out = OBytes p /\ ns_rem x' = rest)).
 Proof.
-  intros I Hrem H. pose proof I as [W R M]. unfold ns_rem, ns_tmo, ns_suffix in *.
+  intros I Hrem H. pose proof I as [W R M D]. unfold ns_rem, ns_tmo, ns_suffix in *.
   assert (Hunf : read_ns x m =
-     match recv_until (ns_bs x) [58%N] (MVal (ns_msg x m)) false with
+     match recv_until_dl (ns_dl x) (ns_bs x) [58%N] (MVal (ns_msg x m)) false with
      | (OBytes size_prefix, s1) =>
          match py_int size_prefix with
          | None => (OExn NetstringInvalidSize, with_bs x s1)
@@ -234,12 +237,15 @@ Proof.
   pose proof (ns_msg_eq x m I) as Hmsg. set (mx := ns_mx x m) in *. set (msg := ns_msg x m) in *.
   set (k := length (dec (length p))).
   (* phase 1 *)
-  destruct (recv_until (ns_bs x) [58%N] (MVal msg) false) as [o1 s1] eqn:E1.
-  pose proof (recv_until_ok _ _ _ _ _ _ W R E1) as (W1 & SR1 & (pre1 & Hp1) & C1).
+  destruct (recv_until_dl (ns_dl x) (ns_bs x) [58%N] (MVal msg) false) as [o1 s1] eqn:E1.
+  pose proof (recv_until_dl_ok _ _ _ _ _ _ _ W R E1) as (W1 & SR1 & (pre1 & Hp1) & C1).
   assert (Rs1 : 1 <= recvsize s1) by (destruct SR1 as (_ & -> & _); assumption).
+  assert (D1 : dl s1 = true) by (destruct SR1 as (_ & _ & _ & _ & _ & ->); assumption).
+  pose proof (recv_until_dl_le _ _ _ _ _ _ _ E1) as L1.
   destruct C1 as [(e & -> & Hr1 & Ht1)|(_ & Ht1 & C1)].
   { inversion H; subst; clear H. cbn [ns_bs with_bs ns_maxsize ns_msgsize_maxsize].
-    split; [constructor; assumption|]. split; [reflexivity|]. split; [eauto|]. left. exists e. auto. }
+    split; [constructor; assumption|]. split; [reflexivity|]. split; [eauto|]. left. exists e.
+    split; [reflexivity|]. split; [assumption|]. exact (intr_by_weaken _ _ _ _ Ht1). }
   cbn [spec_framing resolve lim_take] in C1. rewrite Hrem in C1.
   destruct (Nat.leb (k + 1) msg) eqn:Ek.
   - (* the size prefix fits into the search window *)
@@ -264,11 +270,13 @@ Proof.
     destruct (recv_size s1 (length p)) as [o2 s2] eqn:E2.
     pose proof (recv_size_ok _ _ _ _ W1 Rs1 E2) as (W2 & SR2 & (pre2 & Hp2) & C2).
     assert (Rs2 : 1 <= recvsize s2) by (destruct SR2 as (_ & -> & _); assumption).
+    assert (D2 : dl s2 = true) by (destruct SR2 as (_ & _ & _ & _ & _ & ->); assumption).
+    pose proof (recv_size_lim_le _ _ _ _ E2) as L2.
     assert (Hsuf2 : exists q, flat (nt (ns_bs x)) = q ++ flat (nt s2)) by (eapply suffix_trans; eauto).
     destruct C2 as [(e & -> & Hr2 & Ht2)|(_ & Ht2 & C2)].
-    { inversion H; subst; clear H. cbn [ns_bs with_bs ns_maxsize ns_msgsize_maxsize nt rbuf set_recv].
+    { inversion H; subst; clear H. cbn [ns_bs with_bs ns_maxsize ns_msgsize_maxsize nt rbuf recvsize dl set_recv].
       split; [constructor; assumption|]. split; [reflexivity|]. split; [assumption|].
-      left. exists e. split; [reflexivity|]. split; [|congruence].
+      left. exists e. split; [reflexivity|]. split; [|unfold ns_intr_by, ns_net; cbn [ns_bs with_bs nt set_recv]; apply (intr_by_later _ _ _ (nt s1)); [exact L1|exact Ht1|rewrite <- D1; exact Ht2]].
       rewrite remaining_set_recv, <- app_assoc. change (rbuf s2 ++ flat (nt s2)) with (remaining s2).
       rewrite Hr2, <- Hrem1, Hrem, frame_app, <- app_assoc. reflexivity. }
     cbn [spec_framing] in C2. rewrite <- Hrem1 in C2.
@@ -281,12 +289,14 @@ Proof.
     destruct (recv s2 1) as [o3 s3] eqn:E3.
     pose proof (recv_ok _ _ _ _ W2 Rs2 E3) as (W3 & SR3 & (pre3 & Hp3) & C3).
     assert (Rs3 : 1 <= recvsize s3) by (destruct SR3 as (_ & -> & _); assumption).
+    assert (D3 : dl s3 = true) by (destruct SR3 as (_ & _ & _ & _ & _ & ->); assumption).
+    pose proof (recv_le _ _ _ _ E3) as L3.
     assert (Hsuf3 : exists q, flat (nt (ns_bs x)) = q ++ flat (nt s3)).
     { destruct Hsuf2 as [q Hq]. eapply suffix_trans; eauto. }
     destruct C3 as [(e & -> & Hr3 & Ht3)|(_ & Ht3 & (dd & -> & Hok & Hr3))].
-    { inversion H; subst; clear H. cbn [ns_bs with_bs ns_maxsize ns_msgsize_maxsize nt rbuf set_recv].
+    { inversion H; subst; clear H. cbn [ns_bs with_bs ns_maxsize ns_msgsize_maxsize nt rbuf recvsize dl set_recv].
       split; [constructor; assumption|]. split; [reflexivity|]. split; [assumption|].
-      left. exists e. split; [reflexivity|]. split; [|congruence].
+      left. exists e. split; [reflexivity|]. split; [|unfold ns_intr_by, ns_net; cbn [ns_bs with_bs nt set_recv]; apply (intr_by_later _ _ _ (nt s1)); [exact L1|exact Ht1|]; apply (intr_by_later _ _ _ (nt s2)); [exact L2|exact Ht2|rewrite <- D2; exact Ht3]].
       rewrite remaining_set_recv, <- app_assoc. change (rbuf s3 ++ flat (nt s3)) with (remaining s3).
       rewrite Hr3, <- Hrem2, Hrem, frame_app, <- app_assoc. reflexivity. }
     rewrite <- Hrem2 in Hok, Hr3. apply spec_recv_one in Hok. subst dd. cbn [length skipn] in Hr3.
@@ -317,24 +327,27 @@ Qed.
 Lemma read_ns_closed x m out x' :
   ns_inv x -> ns_rem x = [] -> read_ns x m = (out, x') ->
   ns_inv x' /\ ns_maxsize x' = ns_maxsize x /\ ns_suffix x x' /\
-  ((exists e, out = OExn e /\ ns_rem x' = ns_rem x /\ ns_tmo x = e :: ns_tmo x') \/
+  ((exists e, out = OExn e /\ ns_rem x' = ns_rem x /\ ns_intr_by e x x') \/
    (ns_tmo x' = ns_tmo x /\ out = OExn ConnectionClosed /\ ns_rem x' = [])).
 Proof.
-  intros I Hrem H. pose proof I as [W R M]. unfold ns_rem, ns_tmo, ns_suffix in *.
+  intros I Hrem H. pose proof I as [W R M D]. unfold ns_rem, ns_tmo, ns_suffix in *.
   assert (Hunf : exists K,
      read_ns x m =
-     match recv_until (ns_bs x) [58%N] (MVal (ns_msg x m)) false with
+     match recv_until_dl (ns_dl x) (ns_bs x) [58%N] (MVal (ns_msg x m)) false with
      | (OBytes size_prefix, s1) => K size_prefix s1
      | (out, s1) => (out, with_bs x s1)
      end).
   { unfold read_ns, ns_msg. destruct m; eexists; reflexivity. }
   destruct Hunf as [K Hunf]. rewrite Hunf in H. clear Hunf.
-  destruct (recv_until (ns_bs x) [58%N] (MVal (ns_msg x m)) false) as [o1 s1] eqn:E1.
-  pose proof (recv_until_ok _ _ _ _ _ _ W R E1) as (W1 & SR1 & Hp1 & C1).
+  destruct (recv_until_dl (ns_dl x) (ns_bs x) [58%N] (MVal (ns_msg x m)) false) as [o1 s1] eqn:E1.
+  pose proof (recv_until_dl_ok _ _ _ _ _ _ _ W R E1) as (W1 & SR1 & Hp1 & C1).
   assert (Rs1 : 1 <= recvsize s1) by (destruct SR1 as (_ & -> & _); assumption).
+  assert (D1 : dl s1 = true) by (destruct SR1 as (_ & _ & _ & _ & _ & ->); assumption).
+  pose proof (recv_until_dl_le _ _ _ _ _ _ _ E1) as L1.
   destruct C1 as [(e & -> & Hr1 & Ht1)|(_ & Ht1 & C1)].
   { inversion H; subst; clear H. cbn [ns_bs with_bs ns_maxsize ns_msgsize_maxsize].
-    split; [constructor; assumption|]. split; [reflexivity|]. split; [assumption|]. left. exists e. auto. }
+    split; [constructor; assumption|]. split; [reflexivity|]. split; [assumption|]. left. exists e.
+    split; [reflexivity|]. split; [assumption|]. exact (intr_by_weaken _ _ _ _ Ht1). }
   cbn [spec_framing resolve lim_take] in C1. rewrite Hrem in C1.
   rewrite firstn_nil in C1. cbn in C1. inversion C1 as [[Ho1 Hrem1]]; clear C1. subst o1.
   inversion H; subst; clear H. cbn [ns_bs with_bs ns_maxsize ns_msgsize_maxsize].
@@ -345,12 +358,12 @@ Qed.
    consumed nothing (this is what the two repairs of read_ns establish) *)
 Lemma read_ns_interrupted x m out x' :
   ns_inv x -> read_ns x m = (out, x') -> is_interrupt out = true ->
-  exists e, out = OExn e /\ ns_rem x' = ns_rem x /\ ns_tmo x = e :: ns_tmo x' /\
+  exists e, out = OExn e /\ ns_rem x' = ns_rem x /\ ns_intr_by e x x' /\
             ns_inv x' /\ ns_maxsize x' = ns_maxsize x /\ ns_suffix x x'.
 Proof.
-  intros I H Ei. pose proof I as [W R M]. unfold ns_rem, ns_tmo, ns_suffix in *.
+  intros I H Ei. pose proof I as [W R M D]. unfold ns_rem, ns_tmo, ns_suffix in *.
   assert (Hunf : read_ns x m =
-     match recv_until (ns_bs x) [58%N] (MVal (ns_msg x m)) false with
+     match recv_until_dl (ns_dl x) (ns_bs x) [58%N] (MVal (ns_msg x m)) false with
      | (OBytes size_prefix, s1) =>
          match py_int size_prefix with
          | None => (OExn NetstringInvalidSize, with_bs x s1)
@@ -373,12 +386,15 @@ Proof.
      end).
   { unfold read_ns, ns_mx, ns_msg. destruct m; reflexivity. }
   rewrite Hunf in H. clear Hunf.
-  destruct (recv_until (ns_bs x) [58%N] (MVal (ns_msg x m)) false) as [o1 s1] eqn:E1.
-  pose proof (recv_until_ok _ _ _ _ _ _ W R E1) as (W1 & SR1 & (pre1 & Hp1) & C1).
+  destruct (recv_until_dl (ns_dl x) (ns_bs x) [58%N] (MVal (ns_msg x m)) false) as [o1 s1] eqn:E1.
+  pose proof (recv_until_dl_ok _ _ _ _ _ _ _ W R E1) as (W1 & SR1 & (pre1 & Hp1) & C1).
   assert (Rs1 : 1 <= recvsize s1) by (destruct SR1 as (_ & -> & _); assumption).
+  assert (D1 : dl s1 = true) by (destruct SR1 as (_ & _ & _ & _ & _ & ->); assumption).
+  pose proof (recv_until_dl_le _ _ _ _ _ _ _ E1) as L1.
   destruct C1 as [(e & -> & Hr1 & Ht1)|(Hn1 & Ht1 & C1)].
   { inversion H; subst; clear H. exists e. cbn [ns_bs with_bs ns_maxsize ns_msgsize_maxsize].
-    repeat split; auto. eauto. }
+    split; [reflexivity|]. split; [assumption|]. split; [exact (intr_by_weaken _ _ _ _ Ht1)|].
+    split; [constructor; assumption|]. split; [reflexivity|eauto]. }
   cbn [spec_framing resolve lim_take] in C1.
   destruct (first_occ [58%N] (firstn (ns_msg x m) (remaining (ns_bs x)))) as [k|] eqn:F1;
     inversion C1 as [[Ho1 Hrem1]]; clear C1; subst o1;
@@ -393,13 +409,15 @@ Proof.
   destruct (recv_size s1 size) as [o2 s2] eqn:E2.
   pose proof (recv_size_ok _ _ _ _ W1 Rs1 E2) as (W2 & SR2 & (pre2 & Hp2) & C2).
   assert (Rs2 : 1 <= recvsize s2) by (destruct SR2 as (_ & -> & _); assumption).
+  assert (D2 : dl s2 = true) by (destruct SR2 as (_ & _ & _ & _ & _ & ->); assumption).
+  pose proof (recv_size_lim_le _ _ _ _ E2) as L2.
   assert (Hsuf2 : exists q, flat (nt (ns_bs x)) = q ++ flat (nt s2)) by (eapply suffix_trans; eauto).
   destruct C2 as [(e & -> & Hr2 & Ht2)|(Hn2 & Ht2 & C2)].
-  { inversion H; subst; clear H. exists e. cbn [ns_bs with_bs ns_maxsize ns_msgsize_maxsize nt rbuf set_recv].
+  { inversion H; subst; clear H. exists e. cbn [ns_bs with_bs ns_maxsize ns_msgsize_maxsize nt rbuf recvsize dl set_recv].
     split; [reflexivity|]. split.
     { rewrite remaining_set_recv, <- app_assoc. change (rbuf s2 ++ flat (nt s2)) with (remaining s2).
       rewrite Hr2, <- app_assoc. symmetry. exact Hwhole. }
-    split; [congruence|]. split; [constructor; assumption|]. split; [reflexivity|assumption]. }
+    split; [unfold ns_intr_by, ns_net; cbn [ns_bs with_bs nt set_recv]; apply (intr_by_later _ _ _ (nt s1)); [exact L1|exact Ht1|rewrite <- D1; exact Ht2]|]. split; [constructor; assumption|]. split; [reflexivity|assumption]. }
   cbn [spec_framing] in C2.
   destruct (Nat.leb size (length (remaining s1)) && negb (is_nil (remaining s1)));
     inversion C2 as [[Ho2 Hrem2]]; clear C2; subst o2;
@@ -407,19 +425,21 @@ Proof.
   destruct (recv s2 1) as [o3 s3] eqn:E3.
   pose proof (recv_ok _ _ _ _ W2 Rs2 E3) as (W3 & SR3 & (pre3 & Hp3) & C3).
   assert (Rs3 : 1 <= recvsize s3) by (destruct SR3 as (_ & -> & _); assumption).
+  assert (D3 : dl s3 = true) by (destruct SR3 as (_ & _ & _ & _ & _ & ->); assumption).
+  pose proof (recv_le _ _ _ _ E3) as L3.
   assert (Hsuf3 : exists q, flat (nt (ns_bs x)) = q ++ flat (nt s3)).
   { destruct Hsuf2 as [q Hq]. eapply suffix_trans; eauto. }
   destruct C3 as [(e & -> & Hr3 & Ht3)|(_ & Ht3 & (dd & -> & Hok & Hr3))].
-  { inversion H; subst; clear H. exists e. cbn [ns_bs with_bs ns_maxsize ns_msgsize_maxsize nt rbuf set_recv].
+  { inversion H; subst; clear H. exists e. cbn [ns_bs with_bs ns_maxsize ns_msgsize_maxsize nt rbuf recvsize dl set_recv].
     split; [reflexivity|]. split.
     { rewrite remaining_set_recv, <- app_assoc. change (rbuf s3 ++ flat (nt s3)) with (remaining s3).
       rewrite Hr3, <- Hrem2. rewrite <- app_assoc. cbn [app]. rewrite firstn_skipn. symmetry. exact Hwhole. }
-    split; [congruence|]. split; [constructor; assumption|]. split; [reflexivity|assumption]. }
+    split; [unfold ns_intr_by, ns_net; cbn [ns_bs with_bs nt set_recv]; apply (intr_by_later _ _ _ (nt s1)); [exact L1|exact Ht1|]; apply (intr_by_later _ _ _ (nt s2)); [exact L2|exact Ht2|rewrite <- D2; exact Ht3]|]. split; [constructor; assumption|]. split; [reflexivity|assumption]. }
   destruct (bytes_eqb dd [44%N]); inversion H; subst; discriminate.
 Qed.
 
 Definition robs (len : nat) (out : outcome) (x : ns) : step_obs :=
-  mkObs out (getrecvbuffer (ns_bs x)) (consumed len (ns_bs x)).
+  mkObs out (getrecvbuffer (ns_bs x)) (consumed len (ns_bs x)) (length (intrs (nt (ns_bs x)))).
 
 Lemma conserved_ns stream x :
   (exists pre, stream = pre ++ flat (nt (ns_bs x))) ->
@@ -439,11 +459,11 @@ Proof.
     destruct (ns_step x o) as [out x1] eqn:E1.
     destruct (ns_run false (length stream) x1 r) as [obs' x2] eqn:E2.
     inversion H; subst; clear H.
-    change (mkObs out (getrecvbuffer (ns_bs x1)) (consumed (length stream) (ns_bs x1)))
-      with (robs (length stream) out x1).
+    change (mkObs out (getrecvbuffer (ns_bs x1)) (consumed (length stream) (ns_bs x1))
+                  (length (intrs (nt (ns_bs x1))))) with (robs (length stream) out x1).
     destruct o as [m|p|n|]; try discriminate; cbn [ns_step] in E1.
     + (* read_ns *)
-      cbn [spec_reads robs o_out o_buf o_cnt].
+      cbn [spec_reads robs o_out o_buf o_cnt o_left].
       assert (Hsuf1 : ns_suffix x x1 -> exists pre, stream = pre ++ flat (nt (ns_bs x1))).
       { intros [q Hq]. destruct Hsuf as [pre Hpre]. eapply suffix_trans; eauto. }
       destruct ps as [|p ps'].
@@ -451,8 +471,8 @@ Proof.
         destruct junk as [|j junk'].
         -- cbn [map concat app] in Hrem.
            destruct (read_ns_closed _ _ _ _ I Hrem E1) as (I1 & Hm & Hs & [(e & -> & Hr1 & Ht)|(Ht & -> & Hr1)]).
-           ++ cbn [is_interrupt]. unfold ns_tmo in Ht. rewrite (intrs_head _ _ _ Ht).
-              fold (ns_tmo x). unfold ns_tmo at 1. rewrite Ht. cbn [next_intr]. rewrite exn_eqb_refl.
+           ++ unfold ns_intr_by, ns_net in Ht. cbn [is_interrupt]. rewrite (intr_by_is_intr _ _ _ _ Ht).
+              unfold ns_tmo at 1. rewrite (intr_by_explain _ _ _ _ Ht).
               rewrite <- Hr1, conserved_ns by auto. cbn [andb].
               rewrite <- Hm. apply (IH [] x1 obs' xf); auto. rewrite Hr1. exact Hrem.
            ++ cbn [is_interrupt is_intr_exn is_nil]. rewrite outcome_eqb_refl. cbn [andb].
@@ -463,18 +483,18 @@ Proof.
            cbn [is_nil].
            destruct (is_interrupt out) eqn:Ei; [|reflexivity].
            (* an interrupted read on arbitrary junk: every path re-buffers *)
-           assert (Hgen : exists e, out = OExn e /\ ns_rem x1 = ns_rem x /\ ns_tmo x = e :: ns_tmo x1 /\
+           assert (Hgen : exists e, out = OExn e /\ ns_rem x1 = ns_rem x /\ ns_intr_by e x x1 /\
                                     ns_inv x1 /\ ns_maxsize x1 = ns_maxsize x /\ ns_suffix x x1).
            { apply (read_ns_interrupted x m out x1 I E1 Ei). }
            destruct Hgen as (e & -> & Hr1 & Ht & I1 & Hm & Hs).
-           rewrite Ht. cbn [next_intr]. rewrite exn_eqb_refl.
+           unfold ns_intr_by, ns_net in Ht. unfold ns_tmo at 1. rewrite (intr_by_explain _ _ _ _ Ht).
            rewrite <- Hr1, conserved_ns by auto. cbn [andb].
            rewrite <- Hm. apply (IH [] x1 obs' xf); auto. rewrite Hr1. exact Hrem.
       * (* a frame is next *)
         cbn [map concat] in Hrem. rewrite <- app_assoc in Hrem.
         destruct (read_ns_frame _ _ _ _ _ _ I Hrem E1) as (I1 & Hm & Hs & [(e & -> & Hr1 & Ht)|(Ht & Hc)]).
-        -- cbn [is_interrupt]. unfold ns_tmo in Ht. rewrite (intrs_head _ _ _ Ht).
-           fold (ns_tmo x). unfold ns_tmo at 1. rewrite Ht. cbn [next_intr]. rewrite exn_eqb_refl.
+        -- unfold ns_intr_by, ns_net in Ht. cbn [is_interrupt]. rewrite (intr_by_is_intr _ _ _ _ Ht).
+           unfold ns_tmo at 1. rewrite (intr_by_explain _ _ _ _ Ht).
            rewrite <- Hr1, conserved_ns by auto. cbn [andb].
            rewrite <- Hm. apply (IH (p :: ps') x1 obs' xf); auto.
            rewrite Hr1, Hrem. cbn [map concat]. rewrite <- app_assoc. reflexivity.
@@ -487,32 +507,88 @@ Proof.
               apply (IH ps' x1 obs' xf); auto.
     + (* setmaxsize *)
       inversion E1; subst out x1; clear E1. cbn [spec_reads robs o_out outcome_eqb andb].
-      apply (IH ps (mkNS (ns_bs x) n (calc_msgsize_maxsize n)) obs' xf); auto.
-      destruct I as [W R M]. constructor; auto.
+      apply (IH ps (mkNS (ns_bs x) n (calc_msgsize_maxsize n) (ns_dl x)) obs' xf); auto.
+      destruct I as [W R M D]. constructor; auto.
 Qed.
 
 (* ---- writer + reader: the predicate evaluated on NSCase ------------------------------------------ *)
-Theorem ns_refines_spec wmax wsc wops rmax n junk rops :
+Theorem ns_refines_spec wmax wsc wops rmax rd n junk rops :
   forallb is_wop wops = true -> forallb is_rop rops = true ->
   let '(wobs, w) := ns_run true 0 (ns_init wmax [] wsc) wops in
   getsendbuffer (ns_bs w) = [] ->
   wf_net n = true -> flat n = wire (ns_bs w) ++ junk ->
-  let '(robs, _) := ns_run false (length (flat n)) (ns_init rmax n []) rops in
+  let '(robs, _) := ns_run false (length (flat n)) (ns_init_dl rmax rd n []) rops in
   spec_ns_holds wmax (sintrs wsc) wobs (wire (ns_bs w)) rmax (flat n) junk (intrs n) robs = true.
 Proof.
   intros Hw Hr. destruct (ns_run true 0 (ns_init wmax [] wsc) wops) as [wobs w] eqn:Ew.
-  intros Hsb Wn Hflat. destruct (ns_run false (length (flat n)) (ns_init rmax n []) rops) as [robs xf] eqn:Er.
+  intros Hsb Wn Hflat. destruct (ns_run false (length (flat n)) (ns_init_dl rmax rd n []) rops) as [robs xf] eqn:Er.
   assert (HR0 : WRel wmax [] [] (sintrs wsc) (ns_init wmax [] wsc)) by (constructor; reflexivity).
   destruct (ns_run_writes_spec wops wmax [] [] (sintrs wsc) _ wobs w Hw HR0 Ew)
-    as (mx' & acc' & ps' & pend' & Hs & [Hacc Hps _ _]).
+    as (mx' & acc' & ps' & pend' & Hs & [Hacc Hps _ _ _]).
   unfold getsendbuffer in Hsb. rewrite Hsb, app_nil_r in Hacc.
   unfold spec_ns_holds. rewrite Hs. rewrite <- Hacc, bytes_eqb_refl. cbn [andb].
   rewrite Hflat, bytes_eqb_refl. cbn [andb]. rewrite <- Hflat.
-  assert (I0 : ns_inv (ns_init rmax n [])).
-  { constructor; cbn [ns_init ns_bs bs_init nt recvsize ns_msgsize_maxsize ns_maxsize]; auto.
+  assert (I0 : ns_inv (ns_init_dl rmax rd n [])).
+  { constructor; cbn [ns_init_dl ns_bs bs_init_dl nt recvsize dl ns_msgsize_maxsize ns_maxsize]; auto.
     apply Nat.ltb_lt. vm_compute. reflexivity. }
-  pose proof (ns_run_reads_spec (flat n) junk rops ps' (ns_init rmax n []) robs xf Hr I0) as Hreads.
+  pose proof (ns_run_reads_spec (flat n) junk rops ps' (ns_init_dl rmax rd n []) robs xf Hr I0) as Hreads.
   apply Hreads; auto.
-  - unfold ns_rem, remaining. cbn [ns_init ns_bs bs_init rbuf nt app]. rewrite Hflat, Hacc, <- Hps. reflexivity.
+  - unfold ns_rem, remaining. cbn [ns_init_dl ns_bs bs_init_dl rbuf nt app]. rewrite Hflat, Hacc, <- Hps. reflexivity.
   - exists []. reflexivity.
+Qed.
+
+(* ---- the retry discipline: exactly the payloads ---------------------------------------------------- *)
+Lemma read_ns_retry_ok : forall fuel x p rest out x',
+  ns_inv x -> length p <= ns_maxsize x -> ns_rem x = frame p ++ rest ->
+  net_size (nt (ns_bs x)) <= fuel ->
+  read_ns_retry fuel x None = (out, x') ->
+  ns_inv x' /\ ns_maxsize x' = ns_maxsize x /\ out = OBytes p /\ ns_rem x' = rest.
+Proof.
+  induction fuel as [|f IH]; intros x p rest out x' I Hp Hrem F H; cbn [read_ns_retry] in H;
+    destruct (read_ns x None) as [o1 x1] eqn:E;
+    destruct (read_ns_frame _ _ _ _ _ _ I Hrem E) as (I1 & Hm & _ & [(e & -> & Hr & Ht)|(Ht & Hc)]);
+    try (cbn [ns_mx] in Hc; rewrite (proj2 (Nat.ltb_ge _ _)) in Hc by assumption; destruct Hc as [-> Hr]).
+  - destruct Ht as [Hs _]. unfold ns_net in Hs. lia.
+  - cbn in H. inversion H; subst. auto.
+  - cbn [is_interrupt] in H. rewrite (intr_by_is_intr _ _ _ _ Ht) in H.
+    destruct Ht as [Hs _]. unfold ns_net in Hs.
+    apply IH with (p := p) (rest := rest) in H; try congruence; try lia.
+  - cbn in H. inversion H; subst. auto.
+Qed.
+
+Lemma ns_read_retry_ok : forall ps x,
+  ns_inv x -> Forall (fun p => length p <= ns_maxsize x) ps -> ns_rem x = concat (map frame ps) ->
+  ns_read_retry x (length ps) = map OBytes ps.
+Proof.
+  induction ps as [|p ps IH]; intros x I Hall Hrem; [reflexivity|].
+  inversion Hall as [|? ? Hp Hrest]; subst. cbn [length ns_read_retry map].
+  destruct (read_ns_retry (net_size (nt (ns_bs x))) x None) as [out x'] eqn:E.
+  cbn [map concat] in Hrem.
+  apply read_ns_retry_ok with (p := p) (rest := concat (map frame ps)) in E; auto.
+  destruct E as (I' & Hm & -> & Hr). f_equal. apply IH; auto. rewrite Hm. assumption.
+Qed.
+
+Theorem netstring_roundtrip rmax rd ps n :
+  wf_net n = true -> flat n = concat (map frame ps) ->
+  Forall (fun p => length p <= rmax) ps ->
+  ns_read_retry (ns_init_dl rmax rd n []) (length ps) = map OBytes ps.
+Proof.
+  intros W Hf Hall. apply ns_read_retry_ok; auto.
+  constructor; cbn [ns_init_dl ns_bs bs_init_dl nt recvsize dl ns_msgsize_maxsize ns_maxsize]; auto.
+  apply Nat.ltb_lt. vm_compute. reflexivity.
+Qed.
+
+(* ---- the writer alone: whatever happens on the sending side, the wire followed by the send buffer
+        is the concatenation of the frames of the accepted payloads ------------------------------------ *)
+Theorem ns_writer_conservation wmax wsc wops :
+  forallb is_wop wops = true ->
+  let '(wobs, w) := ns_run true 0 (ns_init wmax [] wsc) wops in
+  exists acc ps, spec_writes wmax (wire (ns_bs w)) [] [] (sintrs wsc) wobs = Some (acc, ps) /\
+                 wire (ns_bs w) ++ getsendbuffer (ns_bs w) = concat (map frame ps).
+Proof.
+  intros Hw. destruct (ns_run true 0 (ns_init wmax [] wsc) wops) as [wobs w] eqn:Ew.
+  assert (HR0 : WRel wmax [] [] (sintrs wsc) (ns_init wmax [] wsc)) by (constructor; reflexivity).
+  destruct (ns_run_writes_spec wops wmax [] [] (sintrs wsc) _ wobs w Hw HR0 Ew)
+    as (mx' & acc' & ps' & pend' & Hs & [Hacc Hps _ _ _]).
+  exists acc', ps'. split; [exact Hs|]. unfold getsendbuffer. congruence.
 Qed.
